@@ -2,6 +2,7 @@
   Lemmas about the byte search used by the raw-appended fallback parser (FcModel/VtkAppendix.lean).
 -/
 import FcModel.VtkAppendix
+import FcModel.Spec.C05
 namespace Fc
 
 theorem startsWith_append (n r : List Nat) : startsWith n (n ++ r) = true := by
@@ -36,5 +37,408 @@ theorem findAt_first (needle l : List Nat) (i k : Nat) (hk : k ≤ l.length)
         (fun j hj => by simpa using hno (j + 1) (by omega)) (by simpa using hyes)
       simp only [findAt, h0, Bool.false_eq_true, if_false, this]
       congr 1; omega
+
+/-! ### the literal needles -/
+
+theorem openTag_eq : openTag = [60, 65, 112, 112, 101, 110, 100, 101, 100, 68, 97, 116, 97] := by decide +kernel
+theorem closeTag_eq : closeTag = [60, 47, 65, 112, 112, 101, 110, 100, 101, 100, 68, 97, 116, 97, 62] := by decide +kernel
+theorem encodingKw_eq : encodingKw = [101, 110, 99, 111, 100, 105, 110, 103] := by decide +kernel
+
+/-! ### `startsWith` across a concatenation -/
+
+/-- a byte that does not occur in the needle cannot be covered by an occurrence -/
+theorem startsWith_sep (n xs ys : List Nat) (d : Nat) (hd : d ∉ n)
+    (h : startsWith n (xs ++ d :: ys) = true) : startsWith n xs = true := by
+  induction n generalizing xs with
+  | nil => cases xs <;> rfl
+  | cons a n ih =>
+    cases xs with
+    | nil =>
+      simp only [List.nil_append, startsWith, Bool.and_eq_true, beq_iff_eq] at h
+      exact absurd (h.1 ▸ List.mem_cons_self) hd
+    | cons x xs =>
+      simp only [List.cons_append, startsWith, Bool.and_eq_true] at h ⊢
+      exact ⟨h.1, ih xs (fun hm => hd (List.mem_cons_of_mem _ hm)) h.2⟩
+
+/-- needle `c :: rest` with `c ∉ rest` (no border): an occurrence that begins in `x :: xs` cannot reach
+    into a continuation that starts with `c` -/
+theorem startsWith_border (c : Nat) (rest xs ys : List Nat) (x : Nat) (hc : c ∉ rest)
+    (h : startsWith (c :: rest) (x :: xs ++ c :: ys) = true) : startsWith (c :: rest) (x :: xs) = true := by
+  simp only [List.cons_append, startsWith, Bool.and_eq_true] at h ⊢
+  exact ⟨h.1, startsWith_sep rest xs ys c hc h.2⟩
+
+theorem startsWith_not_head (c x : Nat) (rest xs : List Nat) (h : x ≠ c) :
+    startsWith (c :: rest) (x :: xs) = false := by
+  simp only [startsWith, Bool.and_eq_false_imp, beq_iff_eq]
+  intro e; exact absurd e.symm h
+
+/-! ### `occ` -/
+
+theorem occ_false_drop (needle l : List Nat) (h : occ needle l = false) (j : Nat) :
+    startsWith needle (l.drop j) = false := by
+  induction l generalizing j with
+  | nil => simpa [occ] using h
+  | cons x xs ih =>
+    simp only [occ, Bool.or_eq_false_iff] at h
+    cases j with
+    | zero => simpa using h.1
+    | succ j => simpa using ih h.2 j
+
+theorem occ_false_of_not_mem (c : Nat) (rest l : List Nat) (h : c ∉ l) : occ (c :: rest) l = false := by
+  induction l with
+  | nil => simp [occ, startsWith]
+  | cons x xs ih =>
+    simp only [occ, Bool.or_eq_false_iff]
+    exact ⟨startsWith_not_head c x rest xs (fun e => h (e ▸ List.mem_cons_self)),
+      ih (fun hm => h (List.mem_cons_of_mem _ hm))⟩
+
+/-- joining two pieces at a byte that is not in the needle creates no occurrence -/
+theorem occ_join_sep (needle xs ys : List Nat) (d : Nat) (hd : d ∉ needle) (hne : needle ≠ [])
+    (hx : occ needle xs = false) (hy : occ needle ys = false) : occ needle (xs ++ d :: ys) = false := by
+  induction xs with
+  | nil =>
+    obtain ⟨a, n, rfl⟩ := List.exists_cons_of_ne_nil hne
+    simp only [List.nil_append, occ, Bool.or_eq_false_iff]
+    exact ⟨startsWith_not_head a d n ys (fun e => hd (e ▸ List.mem_cons_self)), hy⟩
+  | cons x xs ih =>
+    simp only [occ, Bool.or_eq_false_iff] at hx
+    simp only [List.cons_append, occ, Bool.or_eq_false_iff]
+    refine ⟨?_, ih hx.2⟩
+    cases hs : startsWith needle (x :: (xs ++ d :: ys)) with
+    | false => rfl
+    | true =>
+      have := startsWith_sep needle (x :: xs) ys d hd (by simpa using hs)
+      rw [hx.1] at this; cases this
+
+/-- joining two pieces where the second one starts with the (unique) first byte of the needle -/
+theorem occ_join_border (c : Nat) (rest xs ys : List Nat) (hc : c ∉ rest)
+    (hx : occ (c :: rest) xs = false) (hy : occ (c :: rest) (c :: ys) = false) :
+    occ (c :: rest) (xs ++ c :: ys) = false := by
+  induction xs with
+  | nil => simpa using hy
+  | cons x xs ih =>
+    simp only [occ, Bool.or_eq_false_iff] at hx
+    simp only [List.cons_append, occ, Bool.or_eq_false_iff]
+    refine ⟨?_, ih hx.2⟩
+    cases hs : startsWith (c :: rest) (x :: (xs ++ c :: ys)) with
+    | false => rfl
+    | true =>
+      have := startsWith_border c rest xs ys x hc (by simpa using hs)
+      rw [hx.1] at this; cases this
+
+/-! ### `findAt` / `bfind` (Python `bytes.find`) -/
+
+theorem findAt_ge (needle l : List Nat) (i p : Nat) (h : findAt needle l i = some p) : i ≤ p := by
+  induction l generalizing i with
+  | nil =>
+    simp only [findAt] at h
+    split at h
+    · simp only [Option.some.injEq] at h; omega
+    · cases h
+  | cons x xs ih =>
+    simp only [findAt] at h
+    split at h
+    · simp only [Option.some.injEq] at h; omega
+    · have := ih (i + 1) h; omega
+
+/-- **first occurrence.**  Needle `c :: rest` without border, not occurring in `xs`:
+    the search in `xs ++ needle ++ ys` stops exactly behind `xs`. -/
+theorem findAt_first_occ (c : Nat) (rest xs ys : List Nat) (i : Nat) (hc : c ∉ rest)
+    (hx : occ (c :: rest) xs = false) :
+    findAt (c :: rest) (xs ++ (c :: rest) ++ ys) i = some (i + xs.length) := by
+  induction xs generalizing i with
+  | nil =>
+    have : startsWith (c :: rest) (c :: (rest ++ ys)) = true := by
+      have := startsWith_append (c :: rest) ys
+      simpa using this
+    simp [findAt, this]
+  | cons x xs ih =>
+    simp only [occ, Bool.or_eq_false_iff] at hx
+    have h0 : startsWith (c :: rest) (x :: (xs ++ c :: (rest ++ ys))) = false := by
+      cases hs : startsWith (c :: rest) (x :: (xs ++ c :: (rest ++ ys))) with
+      | false => rfl
+      | true =>
+        have := startsWith_border c rest xs (rest ++ ys) x hc (by simpa using hs)
+        rw [hx.1] at this; cases this
+    have := ih (i + 1) hx.2
+    simp only [List.cons_append, List.append_assoc, findAt, h0, Bool.false_eq_true, if_false] at this ⊢
+    rw [this]; simp only [List.length_cons]; congr 1; omega
+
+/-- single byte: skip a piece that does not contain it -/
+theorem findAt_byte_skip (c : Nat) (m r : List Nat) (i : Nat) (hm : c ∉ m) :
+    findAt [c] (m ++ r) i = findAt [c] r (i + m.length) := by
+  induction m generalizing i with
+  | nil => simp
+  | cons x xs ih =>
+    have h0 : startsWith [c] (x :: (xs ++ r)) = false :=
+      startsWith_not_head c x [] _ (fun e => hm (e ▸ List.mem_cons_self))
+    simp only [List.cons_append, findAt, h0, Bool.false_eq_true, if_false, List.length_cons]
+    rw [ih (i + 1) (fun h => hm (List.mem_cons_of_mem _ h))]
+    congr 1; omega
+
+theorem findAt_byte_here (c : Nat) (r : List Nat) (i : Nat) : findAt [c] (c :: r) i = some i := by
+  simp [findAt, startsWith]
+
+theorem findAt_byte (c : Nat) (m r : List Nat) (i : Nat) (hm : c ∉ m) :
+    findAt [c] (m ++ c :: r) i = some (i + m.length) := by
+  rw [findAt_byte_skip c m _ i hm, findAt_byte_here]
+
+/-- `content.find(needle, s)` where the content is split at `s` -/
+theorem bfind_split (needle content xs r : List Nat) (s : Nat) (h : content = xs ++ r) (hs : xs.length = s) :
+    bfind needle content s = findAt needle r s := by
+  subst h; subst hs
+  unfold bfind
+  simp
+
+/-! ### `rfindAt` / `brfind` (Python `bytes.rfind`) -/
+
+theorem rfindAt_no_occ (needle l : List Nat) (i : Nat) (last : Option Nat) (hne : needle ≠ [])
+    (h : occ needle l = false) : rfindAt needle l i last = last := by
+  induction l generalizing i last with
+  | nil =>
+    cases needle with
+    | nil => exact absurd rfl hne
+    | cons a n => simp [rfindAt]
+  | cons x xs ih =>
+    simp only [occ, Bool.or_eq_false_iff] at h
+    simp only [rfindAt, h.1, Bool.false_eq_true, if_false]
+    exact ih (i + 1) last h.2
+
+/-- **last occurrence.**  If the needle does not occur behind position `|xs|` of `xs ++ needle ++ ys`
+    the backward search returns `|xs|`, whatever `xs` contains. -/
+theorem rfindAt_last_occ (c : Nat) (rest xs ys : List Nat) (i : Nat) (last : Option Nat)
+    (h : occ (c :: rest) (rest ++ ys) = false) :
+    rfindAt (c :: rest) (xs ++ (c :: rest) ++ ys) i last = some (i + xs.length) := by
+  induction xs generalizing i last with
+  | nil =>
+    have hs : startsWith (c :: rest) (c :: (rest ++ ys)) = true := by
+      have := startsWith_append (c :: rest) ys
+      simpa using this
+    simp only [List.nil_append, List.cons_append, rfindAt, hs, if_true, List.length_nil, Nat.add_zero]
+    exact rfindAt_no_occ _ _ _ _ (by simp) h
+  | cons x xs ih =>
+    simp only [List.cons_append, rfindAt, List.length_cons]
+    have := ih (i + 1) (if startsWith (c :: rest) (x :: (xs ++ (c :: rest) ++ ys)) = true then some i else last)
+    simp only [List.cons_append, List.append_assoc] at this ⊢
+    rw [this]; congr 1; omega
+
+/-! ### the fallback parser on a well-formed raw file -/
+
+open Spec
+
+def openTail : List Nat := [65, 112, 112, 101, 110, 100, 101, 100, 68, 97, 116, 97]
+def closeTail : List Nat := [47, 65, 112, 112, 101, 110, 100, 101, 100, 68, 97, 116, 97, 62]
+def closeInit : List Nat := [60, 47, 65, 112, 112, 101, 110, 100, 101, 100, 68, 97, 116, 97]
+def encTail : List Nat := [110, 99, 111, 100, 105, 110, 103]
+
+theorem openTag_cons : openTag = 60 :: openTail := openTag_eq
+theorem closeTag_cons : closeTag = 60 :: closeTail := closeTag_eq
+theorem closeTag_snoc : closeTag = closeInit ++ [62] := closeTag_eq
+theorem encodingKw_cons : encodingKw = 101 :: encTail := encodingKw_eq
+
+theorem findAt_first_occ' (needle : List Nat) (c : Nat) (rest xs ys : List Nat) (i : Nat)
+    (hn : needle = c :: rest) (hc : c ∉ rest) (hx : occ needle xs = false) :
+    findAt needle (xs ++ needle ++ ys) i = some (i + xs.length) := by
+  subst hn; exact findAt_first_occ c rest xs ys i hc hx
+
+/-- `_find_appendix_positions` on a well-formed raw file: begin = behind the `_`, end = the closing tag -/
+theorem findAppendixPositions_rawFile (f : RawFile) (hh : f.HeadOk) (ha : f.AppendixOk) :
+    findAppendixPositions f.content = some ((f.pre ++ f.mid).length, (f.pre ++ f.mid ++ f.appendix).length) := by
+  obtain ⟨hpO, hpC, hA60, hA62, _, _, _, hW60, hW95, _, _, _⟩ := hh
+  obtain ⟨_, haC⟩ := ha
+  -- 1. the opening tag
+  have h1 : bfind openTag f.content 0 = some f.pre.length := by
+    rw [bfind_split openTag f.content [] f.content 0 rfl rfl]
+    have hc : f.content = f.pre ++ openTag ++ (f.attrs ++ [62] ++ f.ws ++ [95] ++ f.appendix ++ closeTag ++ f.post) := by
+      simp [RawFile.content, RawFile.mid, List.append_assoc]
+    rw [hc, findAt_first_occ' openTag 60 openTail f.pre _ 0 openTag_cons (by decide) hpO]
+    simp
+  -- 2. the enclosed `<…>` range
+  have hc2 : f.content = (f.pre ++ [60]) ++ ((openTail ++ f.attrs) ++ 62 ::
+      (f.ws ++ [95] ++ f.appendix ++ closeTag ++ f.post)) := by
+    simp [RawFile.content, RawFile.mid, openTag_cons, List.append_assoc]
+  have hm62 : 62 ∉ openTail ++ f.attrs := by
+    intro h; rcases List.mem_append.mp h with h | h
+    · revert h; decide
+    · exact hA62 h
+  have hm60 : 60 ∉ openTail ++ f.attrs := by
+    intro h; rcases List.mem_append.mp h with h | h
+    · revert h; decide
+    · exact hA60 h
+  have hClose : bfind [62] f.content (f.pre.length + 1) = some (f.pre.length + 1 + (openTail ++ f.attrs).length) := by
+    rw [bfind_split [62] f.content _ _ (f.pre.length + 1) hc2 (by simp)]
+    exact findAt_byte 62 _ _ _ hm62
+  have hOpen : ∀ no, bfind [60] f.content (f.pre.length + 1) = some no →
+      f.pre.length + 1 + (openTail ++ f.attrs).length < no := by
+    intro no h
+    rw [bfind_split [60] f.content _ _ (f.pre.length + 1) hc2 (by simp), findAt_byte_skip 60 _ _ _ hm60] at h
+    have h0 : startsWith [60] (62 :: (f.ws ++ [95] ++ f.appendix ++ closeTag ++ f.post)) = false := by
+      simp [startsWith]
+    simp only [findAt, h0, Bool.false_eq_true, if_false] at h
+    have := findAt_ge _ _ _ _ h
+    omega
+  have h2 : enclosedRange f.content f.pre.length [60] [62]
+      = some (f.pre.length + 1, some (f.pre.length + 1 + (openTail ++ f.attrs).length)) := by
+    have hb : bfind [60] f.content f.pre.length = some f.pre.length := by
+      have hc : f.content = f.pre ++ (60 :: (openTail ++ f.attrs ++ [62] ++ f.ws ++ [95] ++ f.appendix ++ closeTag ++ f.post)) := by
+        simp [RawFile.content, RawFile.mid, openTag_cons, List.append_assoc]
+      rw [bfind_split [60] f.content _ _ f.pre.length hc rfl]
+      exact findAt_byte_here 60 _ _
+    unfold enclosedRange
+    simp only [hb, show ([60] : List Nat) ≠ [62] by decide, if_false]
+    simp only [List.length_append, enclosedLoop, hClose]
+    cases hO : bfind [60] f.content (f.pre.length + 1) with
+    | none => simp
+    | some no =>
+      have := hOpen no hO
+      simp only [List.length_append] at this
+      simp
+      intro h; omega
+  -- 3. the `_`
+  have h3 : bfind [95] f.content (f.pre.length + 1 + (openTail ++ f.attrs).length + 1)
+      = some (f.pre.length + 1 + (openTail ++ f.attrs).length + 1 + f.ws.length) := by
+    have hc : f.content = (f.pre ++ openTag ++ f.attrs ++ [62]) ++ (f.ws ++ 95 :: (f.appendix ++ closeTag ++ f.post)) := by
+      simp [RawFile.content, RawFile.mid, List.append_assoc]
+    rw [bfind_split [95] f.content _ _ _ hc (by simp [openTag_cons, openTail]; omega)]
+    exact findAt_byte 95 _ _ _ hW95
+  -- 4. the closing tag
+  have h4 : bfind closeTag f.content 0 = some (f.pre ++ f.mid ++ f.appendix).length := by
+    rw [bfind_split closeTag f.content [] f.content 0 rfl rfl]
+    have hc : f.content = (f.pre ++ f.mid ++ f.appendix) ++ closeTag ++ f.post := by
+      simp [RawFile.content, List.append_assoc]
+    have hocc : occ closeTag (f.pre ++ f.mid ++ f.appendix) = false := by
+      have e : f.pre ++ f.mid ++ f.appendix
+          = f.pre ++ 60 :: ((openTail ++ f.attrs ++ [62] ++ f.ws) ++ 95 :: f.appendix) := by
+        simp [RawFile.mid, openTag_cons, List.append_assoc]
+      rw [e, closeTag_cons]
+      apply occ_join_border 60 closeTail _ _ (by decide) (by rw [← closeTag_cons]; exact hpC)
+      have e2 : 60 :: ((openTail ++ f.attrs ++ [62] ++ f.ws) ++ 95 :: f.appendix)
+          = (60 :: (openTail ++ f.attrs ++ [62] ++ f.ws)) ++ 95 :: f.appendix := by simp
+      rw [e2]
+      apply occ_join_sep _ _ _ 95 (by decide) (by simp) _ (by rw [← closeTag_cons]; exact haC)
+      simp only [occ, Bool.or_eq_false_iff]
+      constructor
+      · simp [openTail, closeTail, startsWith]
+      · apply occ_false_of_not_mem
+        intro h
+        simp only [List.mem_append, List.mem_cons, List.not_mem_nil, or_false] at h
+        rcases h with ((h | h) | h) | h
+        · revert h; decide
+        · exact hA60 h
+        · omega
+        · exact hW60 h
+    rw [hc, findAt_first_occ' closeTag 60 closeTail _ _ 0 closeTag_cons (by decide) hocc]
+    simp
+  unfold findAppendixPositions
+  simp only [h1, h2, h3, h4, Option.bind_eq_bind, Option.bind_some]
+  simp only [RawFile.mid, List.length_append, List.length_cons, List.length_nil, openTag_cons, openTail]
+  congr 2; omega
+
+/-- `_determine_encoding` on the slice `p ++ mid ++ appendix ++ </AppendedData> ++ post`, for ANY bytes
+    `p` in front (the backward search takes the LAST opening tag): the declared name -/
+theorem determineEncoding_rawFile (f : RawFile) (p : List Nat) (hh : f.HeadOk) (ha : f.AppendixOk) :
+    determineEncoding (p ++ f.mid ++ f.appendix ++ closeTag ++ f.post) = some f.enc := by
+  obtain ⟨_, _, hA60, _, hE, hq2, hqE, hW60, _, hpostO, _, _⟩ := hh
+  obtain ⟨haO, _⟩ := ha
+  generalize hT : p ++ f.mid ++ f.appendix ++ closeTag ++ f.post = tl
+  -- last opening tag
+  have hr : brfind openTag tl = some p.length := by
+    have hc : tl = p ++ openTag ++ (f.attrs ++ [62] ++ f.ws ++ [95] ++ f.appendix ++ closeTag ++ f.post) := by
+      rw [← hT]; simp [RawFile.mid, List.append_assoc]
+    have hocc : occ openTag (openTail ++ (f.attrs ++ [62] ++ f.ws ++ [95] ++ f.appendix ++ closeTag ++ f.post)) = false := by
+      have e : openTail ++ (f.attrs ++ [62] ++ f.ws ++ [95] ++ f.appendix ++ closeTag ++ f.post)
+          = (openTail ++ f.attrs) ++ 62 :: (f.ws ++ 95 :: (f.appendix ++ 60 :: (closeTail ++ f.post))) := by
+        simp [closeTag_cons, List.append_assoc]
+      rw [e]
+      apply occ_join_sep _ _ _ 62 (by decide) (by decide)
+      · rw [openTag_cons]; apply occ_false_of_not_mem
+        intro h; rcases List.mem_append.mp h with h | h
+        · revert h; decide
+        · exact hA60 h
+      apply occ_join_sep _ _ _ 95 (by decide) (by decide)
+      · rw [openTag_cons]; exact occ_false_of_not_mem 60 _ _ hW60
+      rw [openTag_cons]
+      apply occ_join_border 60 openTail _ _ (by decide) (by rw [← openTag_cons]; exact haO)
+      have e2 : 60 :: (closeTail ++ f.post) = closeInit ++ 62 :: f.post := by simp [closeTail, closeInit]
+      rw [e2, ← openTag_cons]
+      exact occ_join_sep _ _ _ 62 (by decide) (by decide) (by decide +kernel) hpostO
+    unfold brfind
+    rw [hc, openTag_cons] at *
+    have := rfindAt_last_occ 60 openTail p _ 0 none hocc
+    simpa using this
+  -- the keyword behind it
+  have hk : bfind encodingKw tl p.length = some (p.length + (openTag ++ f.a1).length) := by
+    have hc : tl = p ++ ((openTag ++ f.a1) ++ encodingKw ++
+        (f.a2 ++ [34] ++ f.enc ++ [34] ++ f.a3 ++ [62] ++ f.ws ++ [95] ++ f.appendix ++ closeTag ++ f.post)) := by
+      rw [← hT]; simp [RawFile.mid, RawFile.attrs, List.append_assoc]
+    rw [bfind_split encodingKw tl _ _ p.length hc rfl]
+    exact findAt_first_occ' encodingKw 101 encTail _ _ _ encodingKw_cons (by decide) hE
+  -- the quotes
+  have hq1 : bfind [34] tl (p.length + (openTag ++ f.a1).length)
+      = some (p.length + (openTag ++ f.a1).length + (encodingKw ++ f.a2).length) := by
+    have hc : tl = (p ++ (openTag ++ f.a1)) ++ ((encodingKw ++ f.a2) ++ 34 ::
+        (f.enc ++ [34] ++ f.a3 ++ [62] ++ f.ws ++ [95] ++ f.appendix ++ closeTag ++ f.post)) := by
+      rw [← hT]; simp [RawFile.mid, RawFile.attrs, List.append_assoc]
+    rw [bfind_split [34] tl _ _ _ hc (by simp)]
+    apply findAt_byte
+    intro h; rcases List.mem_append.mp h with h | h
+    · revert h; decide +kernel
+    · exact hq2 h
+  have hq2' : bfind [34] tl (p.length + (openTag ++ f.a1).length + (encodingKw ++ f.a2).length + 1)
+      = some (p.length + (openTag ++ f.a1).length + (encodingKw ++ f.a2).length + 1 + f.enc.length) := by
+    have hc : tl = (p ++ (openTag ++ f.a1) ++ (encodingKw ++ f.a2) ++ [34]) ++ (f.enc ++ 34 ::
+        (f.a3 ++ [62] ++ f.ws ++ [95] ++ f.appendix ++ closeTag ++ f.post)) := by
+      rw [← hT]; simp [RawFile.mid, RawFile.attrs, List.append_assoc]
+    rw [bfind_split [34] tl _ _ _ hc (by simp; omega)]
+    exact findAt_byte 34 _ _ _ hqE
+  have hsl : pySlice tl (p.length + (openTag ++ f.a1).length + (encodingKw ++ f.a2).length + 1)
+      (p.length + (openTag ++ f.a1).length + (encodingKw ++ f.a2).length + 1 + f.enc.length) = f.enc := by
+    have hc : tl = (p ++ (openTag ++ f.a1) ++ (encodingKw ++ f.a2) ++ [34]) ++ (f.enc ++ (34 ::
+        (f.a3 ++ [62] ++ f.ws ++ [95] ++ f.appendix ++ closeTag ++ f.post))) := by
+      rw [← hT]; simp [RawFile.mid, RawFile.attrs, List.append_assoc]
+    unfold pySlice
+    rw [hc, List.drop_left' (by simp; omega), Nat.add_sub_cancel_left, List.take_left' rfl]
+  unfold determineEncoding enclosedRange
+  simp only [hr, hk, hq1, hq2', if_true, Option.bind_eq_bind, Option.bind_some, hsl]
+
+/-- **the whole fallback extraction** on a well-formed raw file -/
+theorem fallbackAppendix_rawFile (f : RawFile) (hh : f.HeadOk) (ha : f.AppendixOk) :
+    fallbackAppendix f.content = some (f.appendix, f.enc) := by
+  have hpos := findAppendixPositions_rawFile f hh ha
+  obtain ⟨_, _, _, _, _, _, _, _, _, _, hmid, h100⟩ := id hh
+  unfold fallbackAppendix
+  simp only [hpos, Option.bind_eq_bind, Option.bind_some, h100, if_true]
+  have hk : (f.pre ++ f.mid).length - 100 ≤ f.pre.length := by
+    simp only [List.length_append] at h100 ⊢; omega
+  have htail : f.content.drop ((f.pre ++ f.mid).length - 100)
+      = f.pre.drop ((f.pre ++ f.mid).length - 100) ++ f.mid ++ f.appendix ++ closeTag ++ f.post := by
+    simp only [RawFile.content, List.append_assoc]
+    rw [List.drop_append_of_le_length hk]
+  rw [htail, determineEncoding_rawFile f _ hh ha]
+  have hsl : pySlice f.content (f.pre ++ f.mid).length (f.pre ++ f.mid ++ f.appendix).length = f.appendix := by
+    have hc : f.content = (f.pre ++ f.mid) ++ (f.appendix ++ (closeTag ++ f.post)) := by
+      simp [RawFile.content, List.append_assoc]
+    unfold pySlice
+    have hl : (f.pre ++ f.mid ++ f.appendix).length - (f.pre ++ f.mid).length = f.appendix.length := by
+      simp only [List.length_append]; omega
+    rw [hc, List.drop_left' rfl, hl, List.take_left' rfl]
+  rw [hsl]; rfl
+
+/-- the header the VTK writers (and the harness) produce: `<AppendedData encoding="NAME">\n_` -/
+def stdRawFile (pre enc appendix : List Nat) : RawFile :=
+  ⟨pre, [32], [61], enc, [], [10], appendix, strBytes "\n</VTKFile>\n"⟩
+
+theorem stdRawFile_headOk (pre enc appendix : List Nat)
+    (hO : occ openTag pre = false) (hC : occ closeTag pre = false) (hlen : 100 ≤ pre.length)
+    (he : 34 ∉ enc ∧ 60 ∉ enc ∧ 62 ∉ enc ∧ enc.length ≤ 64) : (stdRawFile pre enc appendix).HeadOk := by
+  obtain ⟨h34, h60, h62, hl⟩ := he
+  refine ⟨hO, hC, ?_, ?_, (show occ encodingKw (openTag ++ [32]) = false by decide +kernel),
+    (show 34 ∉ [61] by decide), h34, (show 60 ∉ [10] by decide), (show 95 ∉ [10] by decide),
+    (show occ openTag (strBytes "\n</VTKFile>\n") = false by decide +kernel), ?_, ?_⟩
+  · simp only [stdRawFile, RawFile.attrs, encodingKw_eq]; simp; exact h60
+  · simp only [stdRawFile, RawFile.attrs, encodingKw_eq]; simp; exact h62
+  · simp only [stdRawFile, RawFile.mid, RawFile.attrs, encodingKw_eq, openTag_eq]; simp; omega
+  · show 100 ≤ (pre ++ (stdRawFile pre enc appendix).mid).length
+    simp only [List.length_append]; omega
 
 end Fc
